@@ -411,6 +411,27 @@ func runC01(c *Ctx) {
 		modPath + ".packetConn": true, modPath + ".ByteBuffer": true, modPath + "/multicast.UDPPeer": true,
 	}
 	checkCompletionEntries(c, e, owners, map[string]string{})
+	// constructors that report through a callback (NewAsyncAdapter): the same obligation
+	for _, fn := range p.Funcs {
+		if fn.Parent() != nil || fn.Signature.Recv() != nil || fn.Object() == nil || !fn.Object().Exported() || fnTypesPkg(fn) == nil || fnTypesPkg(fn).Path() != modPath {
+			continue
+		}
+		for i, prm := range fn.Params {
+			if _, isSig := prm.Type().Underlying().(*types.Signature); !isSig || !isCallbackType(prm.Type()) || paramOnlyStored(fn, i) {
+				continue
+			}
+			src := e2src{fn: fn, kind: srcParam, idx: i}
+			got := e.get(src)
+			switch {
+			case got == c1:
+				c.ok(fn, "callback "+prm.Name(), fn.Pos(), "discharged exactly once on every terminating path")
+			case got == 0:
+				c.unproven(fn, "callback "+prm.Name(), fn.Pos(), "no terminating path found for %s", src)
+			default:
+				c.bad(fn, "callback "+prm.Name(), fn.Pos(), "the constructor's completion may be dropped or delivered twice: discharge counts %s; %s", got, e.describeReturns(src))
+			}
+		}
+	}
 
 	// ------------------------------------------------------------------------------------------------ R2
 	c.rule("C01-R2", "every handler installed with Slot.Set (outside the timer) discharges the parked callback exactly once on every path, and is installed for the direction that is then registered", 9)
@@ -550,6 +571,7 @@ func runC01(c *Ctx) {
 		}
 	}
 	pollHandlerCalls := 0
+	dispatched := map[int64]bool{}
 	for _, pollFn := range dispatchFns {
 		pollFn := pollFn
 		eachInstr(pollFn, func(in ssa.Instruction) {
@@ -563,11 +585,13 @@ func runC01(c *Ctx) {
 				// function) the site passes
 				if iv := handlerIndexValue(call.Common().Value, handlersF); iv != nil {
 					pollHandlerCalls++
+					dispatched[e.readEv], dispatched[e.writeEv] = true, true // the call sites are judged by checkParamDispatch
 					checkParamDispatch(c, p, e, pollFn, in, iv, eventsF, readFlag, writeFlag, delRead, delWrite)
 				}
 				return
 			}
 			pollHandlerCalls++
+			dispatched[k] = true
 			flag, dels, dname := readFlag, delRead, "read"
 			if k == e.writeEv {
 				flag, dels, dname = writeFlag, delWrite, "write"
@@ -642,6 +666,8 @@ func runC01(c *Ctx) {
 	}
 	if pollHandlerCalls == 0 {
 		c.bad(pollEntry, "dispatch", pollEntry.Pos(), "Poll no longer invokes slot handlers")
+	} else {
+		c.check(dispatched[e.readEv] && dispatched[e.writeEv], pollEntry, "dispatch both directions", pollEntry.Pos(), "ready read and write interests are both dispatched", "the poll loop does not invoke the handler of one direction at all: every operation parked in that direction is deregistered (or left armed) and never completed")
 	}
 
 	// ------------------------------------------------------------------------------------------------ R4
@@ -884,6 +910,65 @@ func runC01(c *Ctx) {
 			c.bad(fn, "cancel paths", badPos, "%s: the callback of one operation runs twice, or a stale / nil handler of the other direction is called", bad)
 		} else {
 			c.ok(fn, "cancel paths", fn.Pos(), "%d handler completions: own interest bit tested, own interest removed first, at most once per path (%d contexts)", len(hcalls), len(contexts))
+		}
+	}
+	// R4c: Cancel reaches a completion for every direction in which the type parks operations
+	{
+		type dirs struct{ read, write bool }
+		installs := map[string]*dirs{}
+		for _, fn := range p.Funcs {
+			pk, tn := recvTypeName(fn)
+			if !c14Owners[pk+"."+tn] {
+				continue
+			}
+			for _, call := range callsTo(fn, e.slotSet) {
+				args := call.Common().Args
+				if len(args) != 3 {
+					continue
+				}
+				d := installs[pk+"."+tn]
+				if d == nil {
+					d = &dirs{}
+					installs[pk+"."+tn] = d
+				}
+				if k, ok := constInt(args[1]); ok {
+					if k == e.readEv {
+						d.read = true
+					} else if k == e.writeEv {
+						d.write = true
+					}
+				} else {
+					d.read, d.write = true, true // direction given by a parameter: both
+				}
+			}
+		}
+		for _, fn := range p.Funcs {
+			if fn.Parent() != nil || pinName(fn) != "Cancel" {
+				continue
+			}
+			pk, tn := recvTypeName(fn)
+			d := installs[pk+"."+tn]
+			if d == nil {
+				continue
+			}
+			completes := func(dir int64) bool {
+				return containsDeep(fn, func(in ssa.Instruction) bool {
+					call, ok := in.(ssa.CallInstruction)
+					if !ok || !isDynamicFuncCall(call) {
+						return false
+					}
+					if k, _, ok := handlerIndexOf(call.Common().Value, handlersF); ok {
+						return k == dir
+					}
+					return handlerIndexValue(call.Common().Value, handlersF) != nil
+				}, 3)
+			}
+			if d.read {
+				c.check(completes(e.readEv), fn, "cancel covers read", fn.Pos(), "a parked read is completed by Cancel", "Cancel never invokes the read handler although "+tn+" parks reads: a read in flight survives Cancel and completes later (or never), its callback not told")
+			}
+			if d.write {
+				c.check(completes(e.writeEv), fn, "cancel covers write", fn.Pos(), "a parked write is completed by Cancel", "Cancel never invokes the write handler although "+tn+" parks writes: a write in flight survives Cancel and completes later (or never), its callback not told")
+			}
 		}
 	}
 	// R4b: outside Close (and the timer), removing an interest without completing the parked operation drops it silently
